@@ -513,3 +513,113 @@ Proof. intros E. apply (eval_path_sound _ _ _ _ _ _ _ E). simpl. apply rt_refl. 
 Corollary zero_length_opt g q x vs :
   value_nodes g (POpt q) x = Ok vs -> In x vs.
 Proof. intros E. apply (eval_path_sound _ _ _ _ _ _ _ E). simpl. auto. Qed.
+
+(* ---------- termination for every path, malformed ones included ---------- *)
+Definition not_oof {A} (r:res A) : Prop := r <> Err OutOfFuel.
+
+Lemma bind_not_oof {A B} (r:res A) (k:A -> res B) :
+  not_oof r -> (forall a, r = Ok a -> not_oof (k a)) -> not_oof (bind r k).
+Proof. unfold not_oof. intros Hr Hk. destruct r as [a|e]; simpl; [apply Hk; auto|]. intros [= ->]. apply Hr. reflexivity. Qed.
+
+Lemma union_map_not_oof (f:term -> res (list term)) xs :
+  (forall x, In x xs -> not_oof (f x)) -> not_oof (union_map f xs).
+Proof.
+  unfold union_map. intros H.
+  assert (G : forall acc, not_oof acc ->
+     not_oof (fold_left (fun acc x => bind acc (fun a => bind (f x) (fun ys => Ok (tunion a ys)))) xs acc)).
+  { induction xs as [|x xs IH]; simpl; intros acc Ha; [exact Ha|].
+    apply IH; [intros y Hy; apply H; right; auto|].
+    apply bind_not_oof; auto. intros a _. apply bind_not_oof; [apply H; left; auto|]. intros ys _. discriminate. }
+  apply G. discriminate.
+Qed.
+
+Section WorkNoOof.
+Variable step : term -> res (list term).
+Lemma work_not_oof U fuel : forall seen todo k,
+  (forall x, In x U -> (exists ys, step x = Ok ys /\ NoDup ys /\ incl ys U) \/ (exists e, step x = Err e /\ e <> OutOfFuel)) ->
+  NoDup seen -> incl seen U -> incl todo U ->
+  length U <= length seen + k ->
+  length todo + k * S (length U) <= fuel ->
+  not_oof (work fuel step seen todo).
+Proof.
+  induction fuel as [|f IH]; intros seen todo k Hstep Hn Hs Ht Hk Hf; simpl.
+  - destruct todo; simpl in Hf; [discriminate|lia].
+  - destruct todo as [|a rest]; [discriminate|].
+    destruct (tmem a seen) eqn:E.
+    + apply IH with k; auto.
+      * intros y Hy; apply Ht; right; auto.
+      * simpl in Hf. lia.
+    + apply (mem_false term_eqb_spec) in E.
+      assert (HaU : In a U) by (apply Ht; left; auto).
+      destruct (Hstep a HaU) as [(ys & Es & Hny & Hiy)|(e & Es & He)]; rewrite Es;
+        [|intros [= ->]; congruence].
+      assert (Hlt : length seen < length U) by (eapply NoDup_incl_lt; eauto).
+      assert (Hly : length ys <= length U) by (apply NoDup_incl_length; auto).
+      destruct k as [|k']; [lia|].
+      apply IH with k'; auto.
+      * apply NoDup_app_single; auto.
+      * intros y Hy. apply in_app_iff in Hy as [Hy|[<-|[]]]; auto.
+      * intros y Hy. apply in_app_iff in Hy as [Hy|Hy]; auto. apply Ht; right; auto.
+      * rewrite app_length. simpl. lia.
+      * rewrite app_length. simpl in *. lia.
+Qed.
+End WorkNoOof.
+
+Definition never_oof (g:graph) (q:path) : Prop :=
+  forall inv r x, not_oof (eval_path (fuel_for g) g q inv r x).
+
+Lemma closure_not_oof g q inv r x seen found :
+  never_oof g q -> (seen = [x] \/ seen = []) ->
+  eval_path (fuel_for g) g q inv (S r) x = Ok found ->
+  not_oof (work (fuel_for g) (fun y => eval_path (fuel_for g) g q inv (S r) y) seen found).
+Proof.
+  intros Hq Hseen Ef.
+  set (U := x :: nodes g).
+  assert (Hrange : forall y ys, In y U -> eval_path (fuel_for g) g q inv (S r) y = Ok ys -> NoDup ys /\ incl ys U).
+  { intros y ys Hy E. destruct (eval_path_sound _ _ _ _ _ _ _ E) as [Hn Hin]. split; auto.
+    intros z Hz. apply Hin in Hz. apply rel_range in Hz. destruct Hz as [<-|Hz]; auto. right. exact Hz. }
+  assert (Hstep : forall y, In y U ->
+     (exists ys, eval_path (fuel_for g) g q inv (S r) y = Ok ys /\ NoDup ys /\ incl ys U)
+     \/ (exists e, eval_path (fuel_for g) g q inv (S r) y = Err e /\ e <> OutOfFuel)).
+  { intros y Hy. destruct (eval_path (fuel_for g) g q inv (S r) y) as [ys|e] eqn:E.
+    - left. exists ys. split; auto. eapply Hrange; eauto.
+    - right. exists e. split; auto. intros ->. exact (Hq inv (S r) y E). }
+  destruct (Hrange x found (or_introl eq_refl) Ef) as [Hn Hi].
+  assert (Hlf : length found <= length U) by (apply NoDup_incl_length; auto).
+  unfold fuel_for. simpl in Hlf.
+  destruct Hseen as [-> | ->].
+  - apply work_not_oof with (U := U) (k := length (nodes g)); auto; simpl; try lia; try nia.
+    all: try (repeat constructor; intros []).
+    all: try (intros y [<-|[]]; left; reflexivity).
+  - apply work_not_oof with (U := U) (k := S (length (nodes g))); auto; simpl; try lia; try nia.
+    all: try (intros y []).
+    all: try (constructor).
+    all: try match goal with H : In _ [] |- _ => destruct H end.
+Qed.
+
+Theorem eval_path_never_oof g p : never_oof g p.
+Proof.
+  induction p as [pr|q IH|qs IH|qs IH|q IH|q IH|q IH] using path_ind'; intros inv r x.
+  - discriminate.
+  - cbn [eval_path]. destruct (MAX_PATH_RECURSION <=? r); [discriminate|apply IH].
+  - rewrite eval_path_seq. revert inv r x.
+    induction IH as [|q rest Hq Hrest IHr]; intros inv r x; cbn [seq_eval].
+    + destruct (MAX_PATH_RECURSION <=? r); discriminate.
+    + destruct (MAX_PATH_RECURSION <=? r); [discriminate|].
+      destruct rest as [|q2 rest2].
+      * destruct (r =? 0); [discriminate|apply Hq].
+      * destruct inv.
+        -- apply bind_not_oof; [apply IHr|]. intros mid _. apply union_map_not_oof. intros z _. apply Hq.
+        -- apply bind_not_oof; [apply Hq|]. intros mid _. apply union_map_not_oof. intros z _. apply IHr.
+  - rewrite eval_path_alt. destruct (MAX_PATH_RECURSION <=? r); [discriminate|].
+    apply bind_not_oof.
+    + generalize (@nil term). induction IH as [|q rest Hq Hrest IHr]; intros acc; cbn [alt_eval]; [discriminate|].
+      apply bind_not_oof; [apply Hq|]. intros ys _. apply IHr.
+    + intros all _. destruct (length qs <? 2); discriminate.
+  - cbn [eval_path]. destruct (MAX_PATH_RECURSION <=? r); [discriminate|].
+    apply bind_not_oof; [apply IH|]. intros found Ef. eapply closure_not_oof; eauto.
+  - cbn [eval_path]. destruct (MAX_PATH_RECURSION <=? r); [discriminate|].
+    apply bind_not_oof; [apply IH|]. intros found Ef. eapply closure_not_oof; eauto.
+  - cbn [eval_path]. destruct (MAX_PATH_RECURSION <=? r); [discriminate|].
+    apply bind_not_oof; [apply IH|]. intros found _. discriminate.
+Qed.
